@@ -82,7 +82,7 @@ def cases(tier, seed):
       horizon = 200
     else:
       horizon = (2000, 500, 500, 20000, 500, 2000, 500, 500)[(i * 3 + i // 8 + i // 40) % 8]  # mixes with integrator / timestep
-    out.append({"id": f"{kind}{seed}_{i}", "kind": kind, "seed": seed * 100000 + i, "integrator": integ, "timestep": ts, "horizon": horizon, "underflow": int(i % 8 == 5), "weight": max(1, horizon // 200) * (2 if integ == "RK4" else 1)})
+    out.append({"id": f"{kind}{seed}_{i}", "kind": kind, "seed": seed * 100000 + i, "integrator": integ, "timestep": ts, "horizon": horizon, "underflow": int(i % 4 == 1), "weight": max(1, horizon // 200) * (2 if integ == "RK4" else 1)})
   return out
 
 
